@@ -55,6 +55,10 @@ impl ElemBase for Rat { const CX: bool = false; const NAME: &'static str = "rat"
     fn to_ri(&self) -> (i64, i64) { (if self.d == 1 && self.n.abs() < SAT as i128 { self.n as i64 } else { BAD }, 0) } }
 impl ElemBase for i64 { const CX: bool = false; const NAME: &'static str = "i64";
     fn from_ri(re: i64, _im: i64) -> i64 { re } fn to_ri(&self) -> (i64, i64) { (if self.abs() < SAT { *self } else { BAD }, 0) } }
+impl ElemBase for f32 { const CX: bool = false; const NAME: &'static str = "f32";
+    fn from_ri(re: i64, _im: i64) -> f32 { re as f32 } fn to_ri(&self) -> (i64, i64) { (f2i(*self as f64), 0) } }
+impl ElemBase for i32 { const CX: bool = false; const NAME: &'static str = "i32";
+    fn from_ri(re: i64, _im: i64) -> i32 { re as i32 } fn to_ri(&self) -> (i64, i64) { (*self as i64, 0) } }
 impl ElemBase for u32 { const CX: bool = false; const NAME: &'static str = "u32";
     fn from_ri(re: i64, _im: i64) -> u32 { re as u32 } fn to_ri(&self) -> (i64, i64) { (if (*self as i64) < SAT { *self as i64 } else { BAD }, 0) } }
 impl ElemBase for Cmplx { const CX: bool = true; const NAME: &'static str = "cx";
